@@ -328,6 +328,11 @@ struct Engine
     rep.sampleEvery(4099, caseText(ctx, unsplit, hexs).substr(0, 300) + " => ref " + ref.why + " / impl " + outcomeName(d0.outcome));
 
     bool segDependent = false;
+    // Minimisation: single cuts are evaluated first; a byte-wise / uniform / two-cut segmentation that
+    // fails a clause is reported only if no single cut of the same stream failed that clause (otherwise
+    // the single cut is the minimal failing feature and is what the sig names).  Everything is still
+    // evaluated and counted.
+    std::set<std::string> failedBySingle;
     auto other = [&](const Seg &seg)
     {
       std::vector<Finding> f;
@@ -342,6 +347,7 @@ struct Engine
                                        (d.resp.body != d0.resp.body || d.resp.statusCode != d0.resp.statusCode ||
                                         d.resp.headers != d0.resp.headers))))
         segDependent = true;
+      const bool single = seg.kind == Seg::Cuts && seg.cuts.size() == 1;
       for (auto &x : f)
       {
         bool dup = false;
@@ -354,30 +360,22 @@ struct Engine
         for (auto &b : base)
           if (b.clause == x.clause)
             baseHasClause = true;
+        const bool segOnly = !baseHasClause && (x.clause == "framed-equals-reference" || x.clause == "consumed-equals-reference");
+        const std::string clause = segOnly ? "segmentation-independent" : x.clause;
+        if (single)
+          failedBySingle.insert(clause);
+        else if (failedBySingle.count(clause))
+        {
+          ++rep.counters["multi_cut_failures_subsumed_by_a_single_cut"];
+          continue;
+        }
         std::string where = regionsOf(ref, seg);
-        if (!baseHasClause && (x.clause == "framed-equals-reference" || x.clause == "consumed-equals-reference"))
-          rep.violation("segmentation-independent", x.sig + "@" + where, caseText(ctx, seg, hexs),
-                        "unsplit feed is framed correctly, this segmentation is not: " + x.detail);
-        else
-          rep.violation(x.clause, x.sig + "@" + where, caseText(ctx, seg, hexs), x.detail);
+        rep.violation(clause, x.sig + "@" + where, caseText(ctx, seg, hexs),
+                      (segOnly ? "unsplit feed is framed correctly, this segmentation is not: " : "") + x.detail);
       }
     };
     const size_t n = stream.size();
-    if (plan.bytes && n > 1)
-    {
-      Seg s;
-      s.kind = Seg::Bytes;
-      other(s);
-    }
-    for (size_t k : plan.every)
-      if (k < n && !(k == 1 && plan.bytes))
-      {
-        Seg s;
-        s.kind = Seg::Every;
-        s.every = k;
-        other(s);
-      }
-    if (plan.singles)
+    if (plan.singles || plan.pairs)
     {
       for (size_t c = 1; c < n; ++c)
       {
@@ -396,6 +394,20 @@ struct Engine
           s.cuts = {c};
           other(s);
         }
+    if (plan.bytes && n > 1)
+    {
+      Seg s;
+      s.kind = Seg::Bytes;
+      other(s);
+    }
+    for (size_t k : plan.every)
+      if (k < n && !(k == 1 && plan.bytes))
+      {
+        Seg s;
+        s.kind = Seg::Every;
+        s.every = k;
+        other(s);
+      }
     if (plan.pairs)
     {
       ++rep.counters["streams_with_all_cut_pairs"];
@@ -952,11 +964,38 @@ int main(int argc, char **argv)
       }
       fflush(stdout);
     };
-    Seg un;
-    if (seg.kind != Seg::Unsplit)
-      show(un);
-    show(seg);
-    return bad ? 1 : 0;
+    // Evaluate in a child so that a hang or a sanitizer abort of the real code is reported, not suffered.
+    fflush(nullptr);
+    pid_t pid = fork();
+    if (pid == 0)
+    {
+      Seg un;
+      if (seg.kind != Seg::Unsplit)
+        show(un);
+      show(seg);
+      fflush(nullptr);
+      _exit(bad ? 1 : 0);
+    }
+    int st = 0;
+    double t0 = vr::now_s();
+    while (true)
+    {
+      pid_t r = waitpid(pid, &st, WNOHANG);
+      if (r == pid)
+        break;
+      if (vr::now_s() - t0 > 20)
+      {
+        kill(pid, SIGKILL);
+        waitpid(pid, &st, 0);
+        printf("  VIOLATES clause=terminates sig=hang :: framing did not return within 20 s\n");
+        return 1;
+      }
+      usleep(10000);
+    }
+    if (WIFEXITED(st) && (WEXITSTATUS(st) == 0 || WEXITSTATUS(st) == 1))
+      return WEXITSTATUS(st);
+    printf("  VIOLATES clause=no-crash-no-ub sig=crash :: child ended with status 0x%x (signal / sanitizer report above)\n", st);
+    return 1;
   }
 
   std::string only = args.get("families", lim.pairsOnly ? "ABC" : "ABCDE");
@@ -974,7 +1013,7 @@ int main(int argc, char **argv)
                     rep.bounds["chunking"] = "every composition of the body into <=3 chunks x size spelling {plain, leading zeros, upper "
                                              "hex} x extensions x last-chunk spellings x trailers";
                     rep.bounds["segmentations"] =
-                      lim.pairsOnly ? "unsplit + every pair of cuts, for streams of " + std::to_string(lim.pairMinLen + 1) + ".." +
+                      lim.pairsOnly ? "unsplit + every single cut + every pair of cuts, for streams of " + std::to_string(lim.pairMinLen + 1) + ".." +
                                         std::to_string(lim.pairMaxLen) + " bytes (plain build; shorter streams get their pairs in the ASan part)"
                                     : "unsplit, byte-at-a-time, every single cut; every pair of cuts for streams <= " +
                                         std::to_string(lim.pairMaxLen) + " bytes; family D: " +
@@ -982,6 +1021,14 @@ int main(int argc, char **argv)
                                         "; family E: every single cut + uniform reads of 2,3,7,8,63,64,65,cap-1,cap,cap+1";
                     rep.bounds["mutation_alphabet"] = "CR LF ':' SP '0' 'f' ';' NUL 0xff at every offset of the base streams";
                     rep.bounds["caps"] = thorough ? "default(16MiB), SIZE_MAX, 64, 256, 1024, 4096" : "default(16MiB), SIZE_MAX, 64, 256";
+                    rep.counters["dontcare_streams_with_segmentation_dependent_outcome"] += 0; // informational, see notes
+                    rep.notes.push_back("informational counter dontcare_streams_with_segmentation_dependent_outcome: streams outside the strict "
+                                        "grammar (reference verdict DontCare) whose accept/reject outcome or framed message differed between "
+                                        "two segmentations; the statement demands segmentation independence for valid streams only, so this "
+                                        "is counted, not reported");
+                    rep.notes.push_back("observation (not a violation): interim 1xx responses are erased from the buffer before the cap is "
+                                        "applied again, so a peer sending 1xx responses forever never trips maxResponseBytes; every read "
+                                        "still returns and buffering stays <= cap + one 8192-byte read (family E kind interim-spam)");
                     Engine E(sh, rep);
                     std::vector<std::pair<Ctx, std::string>> base;
                     const bool wantD = only.find('D') != std::string::npos;
